@@ -21,15 +21,87 @@ ALWAYS = ['"><img src=x onerror=alert(1)>', '&amp;<img src=x onerror=1>', '&#38;
           '\\074script\\076alert(1)\\074/script\\076', '\\g<0>\\g<1>']
 INERT = "inert"
 
+# Payloads WITHOUT any ASCII metacharacter: characters (or raw bytes) that only some LATER transformation of finished
+# output -- Unicode normalisation, compatibility / homoglyph folding, transcoding to an 8-bit or 7-bit charset with
+# "best fit" replacement or truncation, a lenient UTF-8 / UTF-7 decoder, a splitlines() that knows the Unicode line
+# separators -- turns into < > " & ' + or a line break.  Escaping done BEFORE such a step does not see them.
+def _shift(s_, f):
+    return "".join(f(c) if c in "<>\"&'+:" else c for c in s_)
+
+
+_M1 = '"><img src=x onerror=1>'
+_M2 = "'><a href='x'>&"
+NA_CLASSES = {
+    # NFKC / NFKD: full-width forms U+FF1C U+FF1E U+FF02 U+FF06 U+FF07, small forms U+FE64 U+FE65 U+FE60
+    "fullwidth": _shift(_M1, lambda c: chr(ord(c) + 0xFEE0)) + _shift(_M2, lambda c: chr(ord(c) + 0xFEE0)),
+    "smallform": "\ufe64b\ufe65\ufe60\ufe64card id=x\ufe65",
+    # canonical decomposition (NFD / NFKD): U+226E U+226F = < > + U+0338, U+2260 = "=" + U+0338
+    "combining": "\u226eb\u226f a\u226fb c\u226ed",
+    # "best fit" transcoding to cp1252 / latin-1 / ASCII: angle quotation marks, angle brackets, curly quotes, primes
+    "bestfit": "\u201d\u203a\u2039img src=x onerror=1\u203a \u3008b\u3009 \u2329i\u232a \u2033\u02ba\u2032 \u00abu\u00bb",
+    # truncation to 8 bits (U+013C -> 0x3C ...) and to 7 bits (0xBC -> 0x3C ...; raw bytes, not UTF-8)
+    "truncate8": _shift(_M1, lambda c: chr(ord(c) + 0x100)) + _shift(_M2, lambda c: chr(ord(c) + 0x2100)),
+    "truncate7": _shift(_M1, lambda c: chr(0xDC80 + ord(c))),
+    # lenient decoders: overlong UTF-8 (C0 BC = "<"), UTF-7
+    "overlong": _shift(_M1, lambda c: "\udcc0" + chr(0xDC80 + ord(c))),
+    "utf7": "+ACI-+AD4-+ADw-img src+AD0-x onerror+AD0-1+AD4-",
+    # line breaks and "+" ":" for Gopher+ blocks: U+2028 U+2029 U+0085, full-width / small plus and colon
+    "linebreaks": "x\u2028+ADMIN:\u2029+FAKE: y\u0085+VIEWS:\u2028 text/evil: \uff1c1k\uff1e",
+    "plusforms": "\uff0bADMIN\uff1a \ufe62FAKE\ufe55 \u2795X\ua789",
+}
+# the classes combined three at a time (every part is complete markup of its own, so ONE folding step is enough to
+# make an element appear); file names stay below 255 bytes
+NA_COMBINED = [
+    NA_CLASSES["fullwidth"][:23] + " " + NA_CLASSES["smallform"] + " " + NA_CLASSES["combining"],
+    NA_CLASSES["bestfit"][:28] + " " + NA_CLASSES["truncate8"][:23] + " " + NA_CLASSES["truncate7"] + " " + NA_CLASSES["overlong"],
+    NA_CLASSES["linebreaks"] + " " + NA_CLASSES["plusforms"] + " " + NA_CLASSES["utf7"],
+]
+
+
+def raw(p):
+    """the bytes of p (UTF-8; a lone surrogate stands for one raw byte) as a latin-1 string: the form in which file
+    names and file contents travel to the driver"""
+    return p.encode("utf-8", "surrogateescape").decode("latin-1")
+
+
+def is_ascii(p):
+    return all(ord(c) < 128 for c in p)
+
+
+# ---- long values: the hostile part DEEP inside (after many words, many white-space runs, many lines) ----
+LONG_RUNS = 300
+LONG_BREAKS = (1, 3, 9, 17, 33, 40, 65, 100, 129, 200, 257, 290)
+_SEPS = [" ", "\t", "  ", " \t ", "\n", "\r\n   ", "\x0b", "\x0c ", "\n\n", "\r"]
+
+
+def long_value(p, hostile, fold=False):
+    """LONG_RUNS words separated by white-space runs of every kind; after the k-th run (k in LONG_BREAKS) the run is
+    a line break and the next words look like Gopher+ block headers (hostile world) or are plain words (inert twin:
+    same runs, same line breaks).  fold=True: only runs that may fold a mail header (every line break is followed by
+    a blank or a tab)."""
+    out = []
+    for k in range(LONG_RUNS):
+        if k in LONG_BREAKS:
+            brk = ("\n " if k % 2 else "\n\t") if fold else ("\r\n" if k % 2 else "\n")
+            out.append(brk + (("+ADMIN:" + brk + "+FAKE%d: " % k + p + brk + "+" + p + ":") if hostile
+                              else ("admin" + brk + "fake%d " % k + p + brk + "x" + p + "x")) + brk)
+        else:
+            sep = _SEPS[(k * 7) % len(_SEPS)]
+            if fold:
+                sep = {"\n": "\n ", "\n\n": "\n\t", "\r": " ", "\x0b": "\t", "\x0c ": " "}.get(sep, sep)
+            out.append(sep)
+        out.append("w%d" % k)
+    return "w" + "".join(out)
+
 
 def _encoded_word(p):
     """RFC 2047 encoded word whose decoded text carries line breaks and a block header"""
     import base64
     if p == INERT:
-        raw = b"E inert inert inert inert"
+        raw_ = b"E inert inert inert inert"
     else:
-        raw = ("E " + p + "\r\n+ADMIN:\r\n Admin: " + p).encode("utf-8", "surrogateescape")
-    return "=?utf-8?b?" + base64.b64encode(raw).decode("ascii") + "?="
+        raw_ = ("E " + p + "\r\n+ADMIN:\r\n Admin: " + p).encode("utf-8", "surrogateescape")
+    return "=?utf-8?b?" + base64.b64encode(raw_).decode("ascii") + "?="
 
 
 def meta_value(p, hostile):
@@ -56,10 +128,17 @@ def fname(p):
     return s_
 
 
-def mk_tree(p, mtime=1_700_000_000):
-    """A site where every content-derived echo position carries the string p (no '/' in file names)."""
-    fn = fname(p)
+def mk_tree(p, mtime=1_700_000_000, long=False):
+    """A site where every content-derived echo position carries the string p (no '/' in file names).
+    long=True: also the documents, menus and messages with LONG values (the K13 cases are built from the short site:
+    its pages go through Coq as literals)."""
     hostile = p != INERT
+    p0, p = p, raw(p)      # from here on p is a byte string (latin-1 form): non-ASCII payloads are UTF-8 on disk
+    # line-oriented files (gophermap, .Links, abstracts): what ends a line there is the format's business -- a
+    # payload with U+2028 / U+2029 / U+0085 would merely be a file of more lines, i.e. a site of another shape
+    pl = raw(re.sub("[\u2028\u2029\x85]", " ", p0))
+    fn = fname(p)
+    tesc = p.replace("&", "&amp;").replace("<", "&lt;").replace(">", "&gt;")
 
     def h(a, b):
         """structure-like text only in the hostile world; the inert world has inert text of the same line count"""
@@ -73,29 +152,32 @@ def mk_tree(p, mtime=1_700_000_000):
                                        + "</title></head><body></body></html>\n"},
         {"path": "page2.html", "data": "<html><head><title>U " + p + "</title></head></html>\n"},
         {"path": "mail.mbox", "data": "From a@b.c Mon Jan  1 00:00:00 2024\nSubject: S " + p + "\n\nbody\n\n"
-                                      "From b@b.c Tue Jan  2 00:00:00 2024\nSubject: " + _encoded_word(p) + "\n\nbody two\n\n"
-                                      "From c@b.c Wed Jan  3 00:00:00 2024\nSubject: folded\n " + p + "\n\t" + h("+ADMIN:", "more") + "\n\nbody three\n"},
+                                      "From b@b.c Tue Jan  2 00:00:00 2024\nSubject: " + _encoded_word(p0) + "\n\nbody two\n\n"
+                                      "From c@b.c Wed Jan  3 00:00:00 2024\nSubject: folded\n " + p + "\n\t" + h("+ADMIN:", "more") + "\n\nbody three\n"
+                                      # a very long subject, folded over many header lines, the hostile parts deep inside
+                                      + ("\nFrom d@b.c Thu Jan  4 00:00:00 2024\nX-One: 1\nSubject: " + long_value(p, hostile, fold=True)
+                                         + "\nX-Two: 2\n\nbody four\n" if long else "")},
         {"path": "abs.txt", "data": "x\n"},
-        {"path": "abs.txt.abstract", "data": "A " + p + "\nsecond " + p + "\n" + h("+INFO: 0fake\t/x\th\t70\n+ADMIN:\n Admin: evil\n+" + p + ":\n",
+        {"path": "abs.txt.abstract", "data": "A " + pl + "\nsecond " + pl + "\n" + h("+INFO: 0fake\t/x\th\t70\n+ADMIN:\n Admin: evil\n+" + pl + ":\n",
                                                                                  "third line\nfourth\n fifth\nsixth\n")},
-        {"path": "abs.txt.keywords", "data": h("+VIEWS:\nkw " + p + "\x0b+X:\x0c+Y:\x1c+Z:\x85+W:\u2028+V:\n".encode("utf-8").decode("latin-1"),
+        {"path": "abs.txt.keywords", "data": h("+VIEWS:\nkw " + pl + "\x0b+X:\x0c+Y:\x1c+Z:\x85+W:\u2028+V:\n".encode("utf-8").decode("latin-1"),
                                                "views\nkw inert\nx\ny\nz\nw\nv\n")},
-        {"path": ".abstract", "data": "root abstract " + p + "\n"},
+        {"path": ".abstract", "data": "root abstract " + pl + "\n"},
         {"path": "long.txt", "data": "x\n"},
         {"path": "long.txt.abstract", "data": h(("+ADMIN: +INFO: +VIEWS: +X: " * 24).strip() + "\n" + ("word " * 30 + "+ABSTRACT: ") * 4 + "\n",
                                                 ("inert words here now and " * 24).strip() + "\n" + ("word " * 30 + "plain words ") * 4 + "\n")},
         {"path": "umn", "kind": "dir"},
         {"path": "umn/one.txt", "data": "1\n"},
-        {"path": "umn/.Links", "data": "Name=N " + p + "\nType=1\nPath=/pub/" + p + "\nHost=h" + p + ".example\nPort=70\n\n"
-                                      "Name=W " + p + "\nType=h\nPath=URL:http://www.example.org/" + p + "\n\n"
-                                      "Name=Q " + p + "\nType=7\nPath=/search" + p + "\nHost=+\nPort=+\n\n"
-                                      "Name=RQ " + p + "\nType=7\nPath=/rsearch" + p + "\nHost=rs" + p + ".example\nPort=7071\n\n"
-                                      "Name=UQ " + p + "\nType=7\nPath=URL:http://find.example/" + p + "\n\n"
-                                      "Name=L " + p + "\nType=0\nPath=/a" + p + "\nHost=+\nPort=+\nAbstract=LA " + p + "\n"},
+        {"path": "umn/.Links", "data": "Name=N " + pl + "\nType=1\nPath=/pub/" + pl + "\nHost=h" + pl + ".example\nPort=70\n\n"
+                                      "Name=W " + pl + "\nType=h\nPath=URL:http://www.example.org/" + pl + "\n\n"
+                                      "Name=Q " + pl + "\nType=7\nPath=/search" + pl + "\nHost=+\nPort=+\n\n"
+                                      "Name=RQ " + pl + "\nType=7\nPath=/rsearch" + pl + "\nHost=rs" + pl + ".example\nPort=7071\n\n"
+                                      "Name=UQ " + pl + "\nType=7\nPath=URL:http://find.example/" + pl + "\n\n"
+                                      "Name=L " + pl + "\nType=0\nPath=/a" + pl + "\nHost=+\nPort=+\nAbstract=LA " + pl + "\n"},
         {"path": "maps", "kind": "dir"},
-        {"path": "maps/gophermap", "data": "info " + p + "\n0D " + p + "\t/sel" + p + "\n1R " + p + "\t/r" + p + "\thost" + p + ".example\t7070\n"
-                                           "hU " + p + "\tURL:http://www.example.com/" + p + "\n7S " + p + "\t/s" + p + "\n"
-                                           "7RS " + p + "\t/rs" + p + "\trhost" + p + ".example\t7072\n7US " + p + "\tURL:http://q.example/" + p + "\n"},
+        {"path": "maps/gophermap", "data": "info " + pl + "\n0D " + pl + "\t/sel" + pl + "\n1R " + pl + "\t/r" + pl + "\thost" + pl + ".example\t7070\n"
+                                           "hU " + pl + "\tURL:http://www.example.com/" + pl + "\n7S " + pl + "\t/s" + pl + "\n"
+                                           "7RS " + pl + "\t/rs" + pl + "\trhost" + pl + ".example\t7072\n7US " + pl + "\tURL:http://q.example/" + pl + "\n"},
         {"path": "text.txt", "data": "line " + p + "\n\n" + p + "\n<p>&amp;</p>\n"},
         # a title spread over several lines, some of which look like Gopher+ block headers
         {"path": "page3.html", "data": "<html><head><title>M " + p + "\n" + h("+ADMIN:\n+ABSTRACT: x\n+FAKE:\n+" + p + ":", "admin\nabstract x\nfake\ninert")
@@ -113,11 +195,11 @@ def mk_tree(p, mtime=1_700_000_000):
                                         + "</head><body lang=\"" + meta_value(p, hostile) + "\"></body></html>\n"},
         # search menus that list themselves (the answer to a search usually shows the search item again)
         {"path": "smap", "kind": "dir"},
-        {"path": "smap/gophermap", "data": "7Search this map " + p + "\t/smap\n0a result\t/abs.txt\n7same, relative\t\n"},
+        {"path": "smap/gophermap", "data": "7Search this map " + pl + "\t/smap\n0a result\t/abs.txt\n7same, relative\t\n"},
         {"path": "slinks", "kind": "dir"},
         {"path": "slinks/hit.txt", "data": "hit\n"},
-        {"path": "slinks/.Links", "data": "Name=Search these links " + p + "\nType=7\nPath=/slinks\nHost=+\nPort=+\n"},
-        {"path": "self.gophermap", "data": "7Search again " + p + "\t/self.gophermap\n0a result\t/abs.txt\n"},
+        {"path": "slinks/.Links", "data": "Name=Search these links " + pl + "\nType=7\nPath=/slinks\nHost=+\nPort=+\n"},
+        {"path": "self.gophermap", "data": "7Search again " + pl + "\t/self.gophermap\n0a result\t/abs.txt\n"},
         # text documents (converted to WML for WAP) with every kind of ending
         {"path": "text2.txt", "data": "first line\n" + p},                                   # last line not terminated
         {"path": "text3.txt", "data": p + "\r" + p + "\r" + h("<b>", "bbb")},                  # CR only
@@ -126,25 +208,47 @@ def mk_tree(p, mtime=1_700_000_000):
         {"path": "text6.txt", "data": ""},                                                    # empty
         {"path": "text7.txt", "data": h("<", "x")},                                           # one character
         {"path": "text8.txt", "data": p + "\n\n\n" + p + "  \t"},                             # blank lines, trailing blanks, no newline
+        # long values: the payload far from the start of the value (after many words / white-space runs / lines)
+        {"path": "text9.txt", "data": "w " * 400 + p + "\n" + "l\n" * 300 + p + "\n" + "x" * 5000 + p + "\n"},
+        {"path": "page7.html", "data": "<html><head><title>" + long_value(tesc, hostile) + "</title></head><body></body></html>\n"},
+        {"path": "longmap", "kind": "dir"},
+        {"path": "longmap/gophermap", "data": "".join("iline %d\n" % k_ for k_ in range(300)) + "0" + "w " * 300 + pl + "\t/deep" + pl + "\n"
+                                              + "1" + "x" * 3000 + pl + "\t/far" + pl + "\thost" + pl + ".example\t70\n"},
     ]
+    if not long:
+        t = [e for e in t if e["path"].split("/")[0] not in LONG_PATHS]
     for e in t:
         e["mtime"] = mtime
         e["path"] = e["path"].encode("utf-8", "surrogateescape").decode("latin-1") if any(ord(c) > 255 for c in e["path"]) else e["path"]
     return t
 
 
-def mk_requests(p):
+LONG_PATHS = ("text9.txt", "page7.html", "longmap")
+LONG_LABEL = re.compile(r"deep|:text9|:mail-4|:html-doc7|longmap|page7|MBOX-MESSAGE/4")
+
+
+def mk_requests(p, long=False):
     """(label, bytes, tls) requests whose replies echo request data or content data"""
-    q = gen.pct(p.encode("utf-8"), safe=b"")
+    R = _mk_requests(p)
+    return R if long else [r_ for r_ in R if not LONG_LABEL.search(r_[0])]
+
+
+def _mk_requests(p):
+    pb = p.encode("utf-8", "surrogateescape")
+    q = gen.pct(pb, safe=b"")
+    deep = b"w+" * 300 + q
     R = []
     for proto, pre, tls in (("http", b"", False), ("https", b"", True), ("wap", b"/wap", False)):
-        for path in (b"/", b"/umn", b"/maps", b"/mail.mbox", b"/d1-" + gen.pct(fname(p).encode("utf-8", "surrogateescape"), safe=b"")):
+        for path in (b"/", b"/umn", b"/maps", b"/longmap", b"/mail.mbox", b"/d1-" + gen.pct(fname(p).encode("utf-8", "surrogateescape"), safe=b"")):
             R.append((f"{proto}:listing:{path.decode()[:12]}", b"GET " + pre + path + b" HTTP/1.0\r\n\r\n", tls))
         R.append((f"{proto}:404", b"GET " + pre + b"/nonexistent-" + q + b" HTTP/1.0\r\n\r\n", tls))
         R.append((f"{proto}:404-search", b"GET " + pre + b"/nonexistent?searchrequest=" + q + b" HTTP/1.0\r\n\r\n", tls))
+        R.append((f"{proto}:404-deep", b"GET " + pre + b"/nonexistent-" + deep + b" HTTP/1.0\r\n\r\n", tls))
+        R.append((f"{proto}:404-search-deep", b"GET " + pre + b"/nonexistent?searchrequest=" + deep + b" HTTP/1.0\r\n\r\n", tls))
+        R.append((f"{proto}:search-self-deep", b"GET " + pre + b"/smap?searchrequest=" + deep + b" HTTP/1.0\r\n\r\n", tls))
         R.append((f"{proto}:url-redirect", b"GET " + pre + b"/URL:http://www.example.com/" + q + b" HTTP/1.0\r\n\r\n", tls))
         R.append((f"{proto}:text", b"GET " + pre + b"/text.txt HTTP/1.0\r\n\r\n", tls))
-        for n in range(2, 9):
+        for n in range(2, 10):
             R.append((f"{proto}:text{n}", b"GET " + pre + b"/text%d.txt HTTP/1.0\r\n\r\n" % n, tls))
         # request headers are request data too
         R.append((f"{proto}:listing-hdr:/", b"GET " + pre + b"/ HTTP/1.0\r\n" + hostile_headers(p) + b"\r\n", tls))
@@ -153,9 +257,9 @@ def mk_requests(p):
         R.append((f"{proto}:text-hdr", b"GET " + pre + b"/text.txt HTTP/1.0\r\n" + hostile_headers(p) + b"\r\n", tls))
         fq = gen.pct(fname(p).encode("utf-8", "surrogateescape"), safe=b"")
         R.append((f"{proto}:doc-named", b"GET " + pre + b"/f1-" + fq + b".txt HTTP/1.0\r\n\r\n", tls))
-        for n in (b"1", b"2", b"3"):
+        for n in (b"1", b"2", b"3", b"4"):
             R.append((f"{proto}:mail-{n.decode()}", b"GET " + pre + b"/mail.mbox%7C/MBOX-MESSAGE/" + n + b" HTTP/1.0\r\n\r\n", tls))
-        for n in (b"", b"2", b"3", b"4", b"5", b"6"):
+        for n in (b"", b"2", b"3", b"4", b"5", b"6", b"7"):
             R.append((f"{proto}:html-doc{n.decode()}", b"GET " + pre + b"/page" + n + b".html HTTP/1.0\r\n\r\n", tls))
             R.append((f"{proto}:html-doc{n.decode()}:head", b"HEAD " + pre + b"/page" + n + b".html HTTP/1.0\r\n\r\n", tls))
         for path in (b"/smap", b"/slinks", b"/self.gophermap"):
@@ -166,15 +270,15 @@ def mk_requests(p):
     for path in (b"/smap", b"/slinks", b"/self.gophermap"):
         R.append(("wap:auto-search-self:" + path.decode(), b"GET " + path + b"?searchrequest=" + q + b" HTTP/1.0\r\n"
                   + hostile_headers(p, wap=True) + b"\r\n", False))
-        sq = p.replace("\t", " ").replace("\r", " ").replace("\n", " ").encode("utf-8", "surrogateescape")
+        sq = pb.replace(b"\t", b" ").replace(b"\r", b" ").replace(b"\n", b" ")
         R.append(("gopherplus:$:" + path.decode() + "?", path + b"\t" + sq + b"\t$\r\n", False))
     for path in (b"/", b"/umn", b"/maps", b"/abs.txt", b"/long.txt", b"/mail.mbox", b"/mail.mbox|/MBOX-MESSAGE/1", b"/mail.mbox|/MBOX-MESSAGE/2",
-                 b"/mail.mbox|/MBOX-MESSAGE/3", b"/page.html", b"/page2.html", b"/page3.html", b"/page4.html", b"/page5.html", b"/page6.html",
-                 b"/smap", b"/slinks", b"/self.gophermap"):
+                 b"/mail.mbox|/MBOX-MESSAGE/3", b"/mail.mbox|/MBOX-MESSAGE/4", b"/page.html", b"/page2.html", b"/page3.html", b"/page4.html",
+                 b"/page5.html", b"/page6.html", b"/page7.html", b"/smap", b"/slinks", b"/self.gophermap", b"/longmap"):
         R.append(("gopherplus:$:" + path.decode(), path + b"\t$\r\n", False))
         R.append(("gopherplus:!:" + path.decode(), path + b"\t!\r\n", False))
         R.append(("sgopherplus:!:" + path.decode(), path + b"\t!\r\n", True))
-    R.append(("gopherplus:404", b"/nonexistent-" + p.encode("utf-8").replace(b"\t", b" ") + b"\t!\r\n", False))
+    R.append(("gopherplus:404", b"/nonexistent-" + pb.replace(b"\t", b" ") + b"\t!\r\n", False))
     # every request once more, in the same process and after all the others: an answer must not depend on
     # what the server has already been asked
     return R + [(lab + "#2", d, t) for lab, d, t in R]
@@ -192,7 +296,7 @@ def hostile_headers(p, wap=False):
     return b"".join(l + b"\r\n" for l in lines)
 
 
-GPLUS_DIRS = {"/", "/umn", "/maps", "/mail.mbox", "/smap", "/slinks", "/self.gophermap", "/smap?", "/slinks?", "/self.gophermap?"}
+GPLUS_DIRS = {"/", "/umn", "/maps", "/longmap", "/mail.mbox", "/smap", "/slinks", "/self.gophermap", "/smap?", "/slinks?", "/self.gophermap?"}
 GPLUS_BLOCKS = {b"+INFO", b"+ADMIN", b"+VIEWS", b"+ABSTRACT", b"+KEYWORDS", b"+ASK", b"+3D", b"+URL"}
 
 
@@ -209,6 +313,24 @@ def gplus_structure_problem(resp):
             return "block %s twice in one item" % h_.decode("latin-1")
         seen.add(h_)
     return None
+
+
+def gplus_lines(resp):
+    """the line structure of a Gopher+ attribute reply: per line "+NAME" (block header), " " (a run of content
+    lines: how many lines a block has is the block's business -- abstracts have as many as their source), "."
+    (terminator), "" (empty) or "?" (anything else), lines ended by CR LF, LF or CR"""
+    out = []
+    for l in re.split(rb"\r\n|\n|\r", resp):
+        m = re.match(rb"\+[^:\r\n ]*", l)
+        k = m.group(0).decode("latin-1") if m else " " if l.startswith(b" ") else "." if l == b"." else "" if not l else "?"
+        if not (k == " " and out and out[-1] == " "):
+            out.append(k)
+    return out
+
+
+def meta_census(body):
+    """how many < > " a page holds"""
+    return [body.count(c) for c in (b"<", b">", b'"')]
 
 
 WML_TEXT_TAGS = {"wml", "card", "p"}
@@ -235,29 +357,31 @@ def run(tier):
     else:
         rng.shuffle(payloads)
         payloads = payloads[:12] + [a for a in ALWAYS if a not in payloads[:12]]
+    # payloads without any ASCII metacharacter: the combined ones always, the single classes in the thorough tier
+    payloads += NA_COMBINED + (list(NA_CLASSES.values()) if tier == "thorough" else [])
     jobs = []
     meta = []
     for p in payloads:
         for variant, val in (("hostile", p), ("inert", INERT)):
-            reqs = mk_requests(p) if variant == "hostile" else None
-        hreqs = mk_requests(p)
-        ireqs = mk_requests(INERT)
+            reqs = mk_requests(p, long=True) if variant == "hostile" else None
+        hreqs = mk_requests(p, long=True)
+        ireqs = mk_requests(INERT, long=True)
         # stock configuration (no servername, shipped page topper) for one half of the payloads; a configured
         # servername and no page topper for the other half
         if len(meta) % 2 == 0:
             cfg = {k_: v_ for k_, v_ in trees.SITE_CONFIG.items() if k_ != "protocols.http.HTTPProtocol"}
         else:
             cfg = dict(trees.SITE_CONFIG, pygopherd={"servername": "gopher.example"})
-        jobs.append({"op": "world", "tree": mk_tree(p), "config": cfg,
+        jobs.append({"op": "world", "tree": mk_tree(p, long=True), "config": cfg,
                      "requests": [{"data": gen.lat(d), "tls": t} for _, d, t in hreqs]})
-        jobs.append({"op": "world", "tree": mk_tree(INERT), "config": cfg,
+        jobs.append({"op": "world", "tree": mk_tree(INERT, long=True), "config": cfg,
                      "requests": [{"data": gen.lat(d), "tls": t} for _, d, t in ireqs]})
         meta.append((p, hreqs, ireqs))
     res = impl_run_parallel(jobs)
     for r in res:
         if not r["ok"]:
             raise RuntimeError(r["err"] + "\n" + r.get("tb", ""))
-    stats = {"pages": 0, "skeleton_diffs": 0, "header_diffs": 0, "gplus_header_diffs": 0}
+    stats = {"pages": 0, "skeleton_diffs": 0, "header_diffs": 0, "gplus_header_diffs": 0, "census_diffs": 0, "gplus_line_diffs": 0}
     for k, (p, hreqs, ireqs) in enumerate(meta):
         hres = res[2 * k]["res"]["results"]
         ires = res[2 * k + 1]["res"]["results"]
@@ -312,8 +436,18 @@ def run(tier):
                                        "payload": p, "request_latin1": gen.lat(data), "first_structural_difference": j,
                                        "hostile_event": repr(hs[j]) if j < len(hs) else None,
                                        "inert_event": repr(is_[j]) if j < len(is_) else None,
-                                       "page_excerpt": _excerpt(hv["body"], p), "tree": "mk_tree(payload)"},
+                                       "page_excerpt": _excerpt(hv["body"], p), "tree": "mk_tree(payload, long=True)"},
                                       tag=f"markup-injection:{proto}:{label.split(':')[1]}")
+                    elif meta_census(hv["body"]) != meta_census(iv["body"]) and not any(c in p for c in '<>"'):
+                        # the payload has no < > " of its own and the page is generated: whatever the data is, the
+                        # page holds the markup characters of its frame and no others
+                        stats["census_diffs"] += 1
+                        found = True
+                        chk.violation({"what": "a generated page holds markup characters (< > \") that are neither in its frame nor in the data: "
+                                               "data was transformed after it had been escaped", "position": where, "payload": p,
+                                       "request_latin1": gen.lat(data), "census_hostile": meta_census(hv["body"]),
+                                       "census_inert": meta_census(iv["body"]), "page_excerpt": _excerpt(hv["body"], p),
+                                       "tree": "mk_tree(payload, long=True)"}, tag=f"unescaped-metachar:{proto}:{label.split(':')[1]}")
                 if proto == "wap" and label.split(":")[1].startswith("text") and ctype.startswith(b"text/vnd.wap.wml"):
                     # a converted text document: nothing but the frame of the deck, and no stray ampersand
                     odd = [e_ for e_ in V.html_skeleton(hv["body"]) if e_[1] not in WML_TEXT_TAGS]
@@ -325,7 +459,7 @@ def run(tier):
                                                if odd else "a text document converted to WML contains an unescaped ampersand",
                                        "position": where, "payload": p, "request_latin1": gen.lat(data),
                                        "foreign_elements": repr(odd[:5]), "stray_ampersand_at": amp.start() if amp else None,
-                                       "page_tail": hv["body"][-200:].decode("latin-1"), "tree": "mk_tree(payload)"},
+                                       "page_tail": hv["body"][-200:].decode("latin-1"), "tree": "mk_tree(payload, long=True)"},
                                       tag=f"markup-injection:wap:{label.split(':')[1]}")
             elif label.split(":")[1] == "$" and label.split(":", 2)[2] not in GPLUS_DIRS:
                 pass   # "$" on a document sends the document: its lines are content, not an attribute listing
@@ -340,6 +474,18 @@ def run(tier):
                                    "block_headers": [x.decode("latin-1") for x in gplus_headers(hb)][:30],
                                    "response_head_latin1": ho["out"][:400]}, tag="gplus-block-injection")
                 hh, ih = gplus_headers(hb), gplus_headers(ib)
+                if hh == ih and not why and gplus_lines(hb) != gplus_lines(ib):
+                    # same block headers, but the lines between them differ in number or kind: a name or a content
+                    # line was broken in two
+                    stats["gplus_line_diffs"] += 1
+                    found = True
+                    hl, il = gplus_lines(hb), gplus_lines(ib)
+                    j = next((i for i in range(min(len(hl), len(il))) if hl[i] != il[i]), min(len(hl), len(il)))
+                    lines_ = re.split(rb"\r\n|\n|\r", hb)
+                    chk.violation({"what": "the line structure of a Gopher+ attribute listing depends on content: a line break taken from "
+                                           "data ends an +INFO or content line", "position": where, "payload": p, "request_latin1": gen.lat(data),
+                                   "first_different_line": j, "lines_hostile": len(hl), "lines_inert": len(il),
+                                   "around": [l.decode("latin-1")[-120:] for l in lines_[max(0, j - 1): j + 2]]}, tag="gplus-line-break")
                 if hh != ih:
                     stats["gplus_header_diffs"] += 1
                     found = True
@@ -349,11 +495,17 @@ def run(tier):
     chk.sample({"payload": meta[0][0], "position": meta[0][1][0][0], "request_latin1": gen.lat(meta[0][1][0][1]),
                 "page_head": res[0]["res"]["results"][0]["out"][:200]})
     chk.coverage["oracle"] = dict(stats, payloads=len(payloads), positions_per_payload=len(meta[0][1]))
+    chk.coverage["non_ascii_payload_classes"] = sorted(NA_CLASSES)
+    chk.coverage["long_values"] = {"white_space_runs": LONG_RUNS, "hostile_parts_after_run": list(LONG_BREAKS)}
     chk.coverage["rule"] = ("payload grammar (< > & \" ' entity look-alikes, comment/CDATA delimiters, attribute breakers) placed in every echo "
                             "position at once (file and directory names, HTML titles, mail subjects, abstracts, .Links Name/Path/Host, gophermap "
                             "fields, request selector, search string, request headers, URL redirect, text-to-WML of documents with every kind of ending), every request "
                             "issued twice in one process, with and without a configured servername / page topper, and the page compared, element/attribute skeleton by "
-                            "html.parser, with the page of an identically shaped inert site; HTTP header blocks and Gopher+ block headers likewise")
+                            "html.parser, with the page of an identically shaped inert site; HTTP header blocks and Gopher+ block headers likewise; "
+                            "payloads WITHOUT ASCII metacharacters (full-width / small forms, combining sequences, best-fit and truncation "
+                            "look-alikes, overlong UTF-8, UTF-7, Unicode line separators) in the same positions, with a census of < > \" "
+                            "besides the skeleton; long values (300 white-space runs / lines / 5000 characters in front of the hostile part) in "
+                            "titles, folded subjects, gophermap names, selectors, search strings and text lines; line structure of Gopher+ listings")
     # ---- K: the Coq renderers / readers against the real code (harness/k06.py) ----
     kmism, kerr, kdetails = run_k13(chk, tier)
     if kmism or kerr:
@@ -364,7 +516,7 @@ def run(tier):
 
 
 def _excerpt(body, p):
-    i = body.find(p.encode("utf-8")[:6])
+    i = body.find(p.encode("utf-8", "surrogateescape")[:6])
     if i < 0:
         return body[:200].decode("latin-1")
     return body[max(0, i - 100): i + 120].decode("latin-1")
